@@ -27,6 +27,9 @@ func (e *Exec) unop(fr *frame, instr *ssa.UnOp, x Value) Value {
 		case SFP:
 			return e.B.FpNeg(t)
 		case SReal:
+			if t.Op == ORatio {
+				return e.B.Ratio(e.B.RNeg(t.Args[0]), t.Args[1])
+			}
 			return e.B.RNeg(t)
 		}
 	case token.XOR:
@@ -239,6 +242,9 @@ func (e *Exec) floatBinop(op token.Token, w int, x, y *Term, instr ssa.Instructi
 			return e.B.FpCmp(OFpLe, y, x)
 		}
 		panic(errorf("float binop %v", op))
+	}
+	if e.Cfg.Float == FloatReal && (x.Op == ORatio || y.Op == ORatio || (op == token.QUO && !y.IsConst())) {
+		return e.ratioBinop(op, x, y, instr)
 	}
 	switch op {
 	case token.ADD:
@@ -631,4 +637,51 @@ func (e *Exec) realIntBinop(op token.Token, x, y *Term) Value {
 func isIntegerType(t types.Type) bool {
 	b, ok := t.Underlying().(*types.Basic)
 	return ok && b.Info()&types.IsInteger != 0
+}
+
+// ratioBinop: exact real arithmetic on rational functions num/den; the solver only
+// ever sees polynomial (in)equalities (DESIGN 2.5 (3)).
+func (e *Exec) ratioBinop(op token.Token, x, y *Term, instr ssa.Instruction) Value {
+	b := e.B
+	xn, xd := b.NumDen(x)
+	yn, yd := b.NumDen(y)
+	mul := func(p, q *Term) *Term { return b.RBin(ORMul, p, q) }
+	zero := b.RealConst(new(big.Rat))
+	switch op {
+	case token.ADD:
+		if xd == yd {
+			return b.Ratio(b.RBin(ORAdd, xn, yn), xd)
+		}
+		return b.Ratio(b.RBin(ORAdd, mul(xn, yd), mul(yn, xd)), mul(xd, yd))
+	case token.SUB:
+		if xd == yd {
+			return b.Ratio(b.RBin(ORSub, xn, yn), xd)
+		}
+		return b.Ratio(b.RBin(ORSub, mul(xn, yd), mul(yn, xd)), mul(xd, yd))
+	case token.MUL:
+		return b.Ratio(mul(xn, yn), mul(xd, yd))
+	case token.QUO:
+		// divisor yn/yd must be non-zero on this path
+		if r := e.check(b.Eq(yn, zero)); r != Unsat {
+			e.recordViolation("divzero", "division by zero at "+e.posOf(instr), "divisor can be zero (finite inputs could produce Inf/NaN)", b.Eq(yn, zero))
+			e.assume(b.Not(b.Eq(yn, zero)))
+		} else {
+			e.known[b.Eq(yn, zero).ID] = false
+		}
+		return b.Ratio(mul(xn, yd), mul(xd, yn))
+	case token.LSS, token.LEQ, token.GTR, token.GEQ:
+		// x ? y  <=>  (xn*yd - yn*xd) * (xd*yd) ? 0   (denominators non-zero)
+		diff := mul(b.RBin(ORSub, mul(xn, yd), mul(yn, xd)), mul(xd, yd))
+		switch op {
+		case token.LSS:
+			return b.RCmp(ORLt, diff, zero)
+		case token.LEQ:
+			return b.RCmp(ORLe, diff, zero)
+		case token.GTR:
+			return b.RCmp(ORLt, zero, diff)
+		default:
+			return b.RCmp(ORLe, zero, diff)
+		}
+	}
+	panic(errorf("ratio binop %v", op))
 }
